@@ -347,7 +347,7 @@ def solve_once(h, gb, wd, sel_args, n_sel, time_left):
         outp = os.path.join(wd, "out.%s.txt" % s)
         outs[s] = outp
         cmd = cbmc_cmd(h, gb, s, sel_args, ui="text")
-        procs[s] = (subprocess.Popen(cmd, stdout=open(outp, "wb"), stderr=subprocess.PIPE,
+        procs[s] = (subprocess.Popen(cmd, stdout=open(outp, "wb"), stderr=open(outp + ".err", "wb"),
                                      preexec_fn=_limits), cmd)
     verdicts = {}
     pending = set(procs)
@@ -361,7 +361,7 @@ def solve_once(h, gb, wd, sel_args, n_sel, time_left):
                     _slots.release()
                     res, err = parse_text_ui(outs[s])
                     if res is None or res["results"] is None:
-                        stderr = p.stderr.read().decode(errors="replace")[-600:]
+                        stderr = open(outs[s] + ".err", errors="replace").read()[-600:]
                         verdicts[s] = {"definitive": False,
                                        "why": err or ("no result (rc=%s) %s %s" % (
                                            p.returncode, "; ".join((res or {}).get("errors", []))[-400:], stderr))}
@@ -645,6 +645,9 @@ def run_harness(pid, h, tier, keep):
                 f["inputs"] = inputs_from_trace(tr)
                 f["trace"] = trace_excerpt(tr) if tr else "(the trace run did not complete; no counterexample values available)"
         rec["sample_obligations"] = [n for n in names if not n.startswith("__CPROVER")][:12]
+        rec["user_names"] = sorted({obligation_name(r) for r in v["results"]
+                                    if (re.search(r"\.assertion\.\d+$", r["property"]) or re.search(r"\.(postcondition|precondition|assigns)\.\d+$", r["property"]))
+                                    and not r["property"].startswith("__CPROVER")})
         rec["user_obligations"] = sum(1 for r in v["results"] if re.search(r"\.assertion\.\d+$", r["property"])
                                       and not r["property"].startswith("__CPROVER"))
         if rec["obligations"] < h.floor:
@@ -813,6 +816,7 @@ def write_evidence(pid, P, tier, seed, recs, wall, violations, known, findings):
             samples.append({"harness": h.name, "obligation": f["name"], "status": "FAILED",
                             "counterexample_inputs": f["inputs"], "replay": f.get("replay"),
                             "reproduced_natively": f.get("reproduced"), "known_finding": f.get("known_finding")})
+    distinct_user = {(h.entry, n) for h, r in recs for n in r.get("user_names", [])}
     assumed = sorted({"%s — %s" % (a["reason"], a["obligation"].split(":")[0]) for _, r in recs for a in r["assumed"]})
     harness_files = sorted({os.path.join(VERIF, h.src) for h, _ in recs})
     contract_files = [os.path.join(VERIF, "contracts", f) for f in sorted(os.listdir(os.path.join(VERIF, "contracts")))]
@@ -825,17 +829,17 @@ def write_evidence(pid, P, tier, seed, recs, wall, violations, known, findings):
             "trusted_base": P.get("trusted", []) + [
                 "cbmc 6.11.0 front end, symbolic execution, goto-instrument --dfcc contract instrumentation, SAT/SMT back ends",
                 "LP64, two's complement, gcc shift semantics"],
-            "evaluations": max(vccs, 1), "distinct_nontrivial": max(vrem, 0),
-            "rule": "evaluations = verification conditions generated by CBMC over all harnesses of this run; "
-                    "distinct_nontrivial = those remaining after CBMC's simplifier (i.e. actually sent to a solver); "
-                    "obligations = CBMC properties (one per assertion / contract clause / safety check) excluding the accepted check classes of accepted_ub.json",
+            "evaluations": max(obligations, 1), "distinct_nontrivial": len(distinct_user),
+            "rule": "evaluations = CBMC properties decided in this run over all harnesses (one per assertion / contract clause / generated safety check), "
+                    "excluding the accepted check classes of accepted_ub.json; distinct_nontrivial = distinct (harness entry, obligation name) pairs among them that are "
+                    "property-level obligations (VASSERT / contract clauses), i.e. not CBMC-generated memory-safety or unwinding checks",
             "samples": samples[:40],
             "explanation": P["explanation"],
             "exhaustive": False,
             "functions_under_contract": funcs,
             "bounded_stand_ins": bounded,
             "known_findings_reported": known,
-            "harnesses": [{k: v for k, v in r.items() if k not in ("_wd", "failed", "sample_obligations")} |
+            "harnesses": [{k: v for k, v in r.items() if k not in ("_wd", "failed", "sample_obligations", "user_names")} |
                           {"failed": [{"obligation": f["name"], "replay": f.get("replay"), "reproduced": f.get("reproduced"),
                                        "known_finding": f.get("known_finding")} for f in r["failed"]]}
                           for _, r in recs],
@@ -844,6 +848,16 @@ def write_evidence(pid, P, tier, seed, recs, wall, violations, known, findings):
         "wall_s": round(wall, 2),
         "violations": violations,
     }
+    if P.get("mc"):
+        # model_checking level: counts of the explored universe, computed by the property's own counting function from the harnesses that were discharged in this run
+        ev["coverage"].update(P["mc"](tier, [(h, r) for h, r in recs if r["status"] == "discharged"]))
+    if len(ev["coverage"]["harnesses"]) > 120:
+        hs_ = ev["coverage"]["harnesses"]
+        keep = [x for x in hs_ if x["status"] != "discharged"] + [x for x in hs_ if x["status"] == "discharged"][:60]
+        ev["coverage"]["harnesses_omitted"] = len(hs_) - len(keep)
+        ev["coverage"]["harnesses_total"] = {"count": len(hs_), "discharged": sum(1 for x in hs_ if x["status"] == "discharged"),
+                                             "solver_s": round(sum(x.get("solver_s") or 0 for x in hs_), 1), "wall_s_sum": round(sum(x.get("wall_s") or 0 for x in hs_), 1)}
+        ev["coverage"]["harnesses"] = keep
     os.makedirs(os.path.join(VERIF, "evidence"), exist_ok=True)
     with open(os.path.join(VERIF, "evidence", pid + ".json"), "w") as f:
         json.dump(ev, f, indent=1)
